@@ -180,6 +180,19 @@ pub fn special_lengths(v: Variant, max: usize) -> Vec<usize> {
             s.push(t as usize + 1);
         }
     }
+    // block-processing boundaries: powers of two and small multiples, alone and shifted by the
+    // 4-byte tail (an implementation that switches to block-wise processing changes path here)
+    for j in 4..=16u32 {
+        let p = 1usize << j;
+        for m in [1usize, 2, 3, 5] {
+            for d in [-1i64, 0, 1, 3, 4, 5] {
+                let x = (p * m) as i64 + d;
+                if x >= 0 {
+                    s.push(x as usize);
+                }
+            }
+        }
+    }
     s.retain(|&x| x <= max);
     s.sort_unstable();
     s.dedup();
